@@ -34,16 +34,19 @@ template <class F> static R guard(F f) {
 static void put_r(Out &o, const char *k, const R &r) { o.c(',').k(k).s("{").k("res").q(r.res).c(',').k("v").s(r.res == "ok" ? r.v : "[]").c('}'); }
 
 // decode through the caller-buffer form into an exact-size block (ASan redzone behind it)
-static std::string buf_decode(bool hex, const string &text, bool null_out, size_t outsize, size_t claimed = 0) {
+// (`off`: the output starts 0..3 bytes into the block, so that every alignment of the caller's pointer occurs; the END of
+//  the output is still the end of the block)
+static std::string buf_decode(bool hex, const string &text, bool null_out, size_t outsize, size_t claimed = 0, size_t off = 0) {
     Out o;
-    char *buf = null_out ? nullptr : (char *)malloc(outsize ? outsize : 1);
-    if (buf) memset(buf, 0xEE, outsize ? outsize : 1);
+    char *blk = null_out ? nullptr : (char *)malloc((outsize ? outsize : 1) + off);
+    char *buf = blk ? blk + off : nullptr;
+    if (blk) memset(blk, 0xEE, (outsize ? outsize : 1) + off);
     // `claimed`: the caller states a capacity above the real (sufficient) one, e.g. SIZE_MAX for "unbounded"
     ST_ssize_t ret = hex ? ST::hex_decode(text, buf, claimed ? claimed : outsize) : ST::base64_decode(text, buf, claimed ? claimed : outsize);
     o.s("{").k("ret").i((long long)ret).c(',').k("buf");
     if (buf && ret >= 0 && (size_t)ret <= outsize) put_units(o, buf, (size_t)ret); else o.s("[]");
     o.c('}');
-    free(buf);
+    free(blk);
     return o.b;
 }
 
@@ -59,10 +62,10 @@ static void op_enc(const Bytes &data) {
     R r4 = guard([&] { return jstr(ST::base64_encode(ST::char_buffer(ex.p, ex.n))); });
     // decode what the library produced, through both decoder forms, and the upper-cased hex
     R d1 = guard([&] { ST::char_buffer b = ST::hex_decode(hx); return jbytes(b.data(), b.size()); });
-    R d2 = guard([&] { return buf_decode(true, hx, false, data.size()); });
+    R d2 = guard([&] { return buf_decode(true, hx, false, data.size(), 0, (size_t)(SH.idx % 4)); });
     R d3 = guard([&] { ST::char_buffer b = ST::hex_decode(hx.to_upper()); return jbytes(b.data(), b.size()); });
     R d4 = guard([&] { ST::char_buffer b = ST::base64_decode(b64); return jbytes(b.data(), b.size()); });
-    R d5 = guard([&] { return buf_decode(false, b64, false, data.size()); });
+    R d5 = guard([&] { return buf_decode(false, b64, false, data.size(), 0, (size_t)((SH.idx / 4) % 4)); });
     R d6 = guard([&] { return buf_decode(false, b64, true, 0); });
     R d7 = guard([&] { return buf_decode(true, hx, true, 0); });
     Out &o = out();
@@ -70,6 +73,12 @@ static void op_enc(const Bytes &data) {
     put_r(o, "hex", r1); put_r(o, "hex_buf", r2); put_r(o, "b64", r3); put_r(o, "b64_buf", r4);
     put_r(o, "hex_back", d1); put_r(o, "hex_back_cb", d2); put_r(o, "hex_upper_back", d3);
     put_r(o, "b64_back", d4); put_r(o, "b64_back_cb", d5); put_r(o, "b64_size_null", d6); put_r(o, "hex_size_null", d7);
+    // short data: the caller-buffer decoders with the output at every alignment (offsets 0..3 into a block)
+    o.c(',').k("hex_cb_al").c('[');
+    if (data.size() <= 9) for (size_t off = 0; off < 4; ++off) { if (off) o.c(','); try { o.s(buf_decode(true, hx, false, data.size(), 0, off)); } catch (...) { o.s("{\"ret\":-2,\"buf\":[]}"); } }
+    o.c(']').c(',').k("b64_cb_al").c('[');
+    if (data.size() <= 9) for (size_t off = 0; off < 4; ++off) { if (off) o.c(','); try { o.s(buf_decode(false, b64, false, data.size(), 0, off)); } catch (...) { o.s("{\"ret\":-2,\"buf\":[]}"); } }
+    o.c(']');
     o.s("}\n"); o.maybe_flush();
 }
 
@@ -110,7 +119,7 @@ static void op_dec(bool hex, const Bytes &text) {
     // caller-buffer form: null output, and every output_size from 0 to a little above the largest possible result
     size_t top = (text.size() / (hex ? 2 : 4)) * (hex ? 1 : 3) + 2;
     o.c(',').k("null").s(buf_decode(hex, s, true, 0)).c(',').k("sized").c('[');
-    for (size_t sz = 0; sz <= top; ++sz) { if (sz) o.c(','); o.s(buf_decode(hex, s, false, sz)); }
+    for (size_t sz = 0; sz <= top; ++sz) { if (sz) o.c(','); o.s(buf_decode(hex, s, false, sz, 0, (size_t)((SH.idx + sz) % 4))); }
     o.s("]").c(',').k("huge").c('[').s(buf_decode(hex, s, false, top, (size_t)-1)).c(',').s(buf_decode(hex, s, false, top, ((size_t)-1 >> 1) + 1)).s("]}\n"); o.maybe_flush();
 }
 
@@ -152,6 +161,10 @@ int main(int argc, char **argv) {
         for (int pos = 0; pos < 3; ++pos) for (int v = 0; v < 256; ++v) for (int bg : {0x00, 0xFF, 0xAA, 0x55}) { Bytes b(3, (char)bg); b[pos] = (char)v; op_enc(b); }
         // every length across the small-string limit of the results
         for (int n = 0; n <= 200; ++n) { Bytes b; for (int i = 0; i < n; ++i) b.push_back((char)(i * 37 + n)); op_enc(b); }
+        // runs of one repeated byte (zero pages, 0xFF fill) of 6..40 bytes at every offset 0..9 inside other data
+        for (int v : std::vector<int>{0x00, 0xFF, 0x30, 0x80}) for (int run : std::vector<int>{6, 7, 8, 9, 15, 16, 17, 24, 32, 40}) for (int off = 0; off <= 9; ++off) {
+            Bytes b; for (int i = 0; i < off; ++i) b.push_back((char)(0x11 * (i + 1))); b.append((size_t)run, (char)v); for (int i = 0; i < (off * 3) % 7; ++i) b.push_back((char)(0xA0 + i)); op_enc(b);
+        }
         for (size_t n : {(size_t)1000, (size_t)4097, (size_t)65535, (size_t)65536, (size_t)131069, (size_t)131070, (size_t)131071, (size_t)131072, (size_t)131073,
                          (size_t)262142, (size_t)262143, (size_t)262144, (size_t)393214, (size_t)393215, (size_t)393216, (size_t)1048577, (size_t)3000002}) op_encbig(n);
         if (!alpha.empty()) all_seqs(alpha, 0, maxlen, op_enc);
